@@ -10,6 +10,42 @@ import (
 func init() {
 	wireEncoders["rdp"] = encodeRDP
 	wireEncoders["http"] = encodeHTTP
+	wireEncoders["tls"] = encodeTLS
+}
+
+// encodeTLS: a ClientHello record written by a real crypto/tls client, or a record of another type
+func encodeTLS(v *wireVec) (*wireCase, error) {
+	m, cfg := v.Msg, v.Cfg
+	c := &wireCase{module: "tls"}
+	cc := tlsClientCfg{SNI: ms_(m, "sni"), Vers: "12-13", Curves: "x25519"}
+	if ms_(m, "alpn") == "h2" {
+		cc.ALPN = []string{"h2", "http/1.1"}
+	}
+	hello, err := captureHello(clientConfig(cc))
+	if err != nil {
+		return nil, err
+	}
+	switch ms_(m, "kind") {
+	case "hello":
+		c.first = hello
+	case "alert":
+		c.first = []byte{0x15, 3, 3, 0, 2, 2, 40}
+	case "appdata":
+		c.first = append([]byte{0x17, 3, 3, 0, 16}, filler(16, 5)...)
+	case "sslv2":
+		c.first = append([]byte{0x80, 0x2e, 0x01, 0x03, 0x01}, filler(43, 9)...)
+	case "http":
+		c.first = []byte("GET / HTTP/1.1\r\nHost: a.example.com\r\n\r\n")
+	}
+	mc := map[string]any{}
+	if l := mlist(cfg, "sni"); len(l) > 0 {
+		mc["sni"] = l
+	}
+	if l := mlist(cfg, "alpn"); len(l) > 0 {
+		mc["alpn"] = l
+	}
+	c.cfg = mc
+	return c, nil
 }
 
 // encodeRDP: the harness's own encoder of an X.224 Connection Request (MS-RDPBCGR 2.2.1.1)
